@@ -197,9 +197,14 @@ def length_rules(rep, ctx, mod, cg, prefix=""):
             seen = {}
             for s_, sf in Fl0.sources(o):
                 val = const_val(s_) if is_const(s_) else None
-                lv = [k for k in (0, 1) if M0.find_fact(("eq", hdr_field("header_level", HP), k), set(sf) | set(sf0 or ()))[0] is not None]
+                allf = set(sf) | set(sf0 or ())
+                lv = [k for k in (0, 1) if M0.find_fact(("eq", hdr_field("header_level", HP), k), allf)[0] is not None]
                 if not lv:                        # a source not tied to one level can be the value at either, unless its path excludes that level
-                    lv = [k for k in (0, 1) if M0.find_fact(("ne", hdr_field("header_level", HP), k), set(sf) | set(sf0 or ()))[0] is None]
+                    lv = [k for k in (0, 1) if M0.find_fact(("ne", hdr_field("header_level", HP), k), allf)[0] is None]
+                    # ... or pins the level to another constant (the case 2 / case 3 arms of a switch over all levels)
+                    for f_ in allf:
+                        if f_[0] == "eq" and is_const(f_[2]) and const_val(f_[2]) not in (None,) and M0.match(hdr_field("header_level", HP), f_[1], {}) is not None:
+                            lv = [k for k in lv if k == const_val(f_[2])]
                 for k in lv:
                     seen.setdefault(k, set()).add(val)
             # the value at a level is known only if every source that can reach it under that level is the same constant
